@@ -1,8 +1,9 @@
 (* Extraction of the executable models for the correspondence check.
    ExtrOcamlBasic only: bool, option, list, prod, unit, sumbool mapped to OCaml's;
    N, Z, positive, nat stay the extracted inductive types (no Extract Constant). *)
-Require Import Layout.
+Require Import Layout MRecon Recon.
 Require Extraction.
 Require Import ExtrOcamlBasic.
 Separate Extraction
-  Layout.parse Layout.encode Layout.total_status Layout.apply_mark Layout.legal.
+  Layout.parse Layout.encode Layout.total_status Layout.apply_mark Layout.legal Layout.mark_field
+  MRecon.run_case Recon.run Recon.init.
